@@ -93,7 +93,7 @@ impl Prop for C13 {
         let world = World { files: files.clone(), env, stdin };
         if prior == "symlink" {
             // no model of symbolic links: oracle only
-            let obs = run_kestrel_wired(&world, &args, &Wiring { stdout: StdoutMode::Pipe, links: vec![("out.bin".into(), "precious.txt".into())] });
+            let obs = run_kestrel_wired(&world, &args, &Wiring { stdout: StdoutMode::Pipe, links: vec![("out.bin".into(), "precious.txt".into())], fifos: vec![] });
             o.validated += 1;
             let still_link = obs.file("out.bin@symlink").is_some();
             let target = obs.file("precious.txt").cloned();
